@@ -276,6 +276,7 @@ TRUSTED_BASE = [
     "hand-written Coq model of /repo's code (coq/*.v); tied to the code by differential execution of generated histories (tools/check, harness/), bounded and sampled",
     "Go harness: generators, virtual clock, projection of errors (library's own classifiers) and times, Coq term printer (harness/internal/cq)",
     "verif-tagged add-only hooks in /repo (clock / id generator injection, probes)",
+    "tools/go2coq (C10, C04 only): syntactic extraction of lock statements / guarded-UPDATE call chains from the Go source; that holding sync.Mutex for a whole call, resp. one guarded SQL statement, is atomic",
 ]
 
 ASSUMPTIONS = [
